@@ -1,6 +1,8 @@
 (* Props/C10.v — every call terminates, also when racing Close; Close is final and leak-free *)
 From Coq Require Import ZArith List Bool Lia.
+From Coq Require Import String.
 From Verif Require Import Base.Word64 Model.Store Model.Close Model.CloseFine Gen.Consts Proof.StoreMap Proof.CloseP Proof.CloseFineP.
+From Verif Require Import Model.Lockset Gen.Access Proof.LocksetI.
 Import ListNotations.
 Open Scope Z_scope.
 
@@ -68,6 +70,14 @@ Theorem c10_early_return_refuted :
     nth_error (cf_pcs st) c = Some CDone /\ nth 1%nat (cf_closed st) false = false.
 Proof. exact close_early_return_refuted. Qed.
 Print Assumptions c10_early_return_refuted.
+
+(* the blocking-point model lets writers park on the write queue "past their map section", holding no lock.  In the
+   table regenerated from the source on this run (go/lockscrape: every channel send, every select without default
+   that sends, and every call of a function that contains one, transitively, with the locks certainly held there) no
+   such point holds a shard lock or the policy lock *)
+Theorem c10_blocking_sites_hold_no_lock : forallb holds_no_lock blocking_sites = true /\ blocking_sites <> [].
+Proof. exact blocking_sites_hold_no_lock. Qed.
+Print Assumptions c10_blocking_sites_hold_no_lock.
 
 (* non-vacuity: more parked writers than the queue holds, two waiters, all background goroutines *)
 Example c10_example :
